@@ -13,6 +13,7 @@ import pickle
 import sys
 
 from ..core import Violation, stream, sut, exc_name, InjectedFault
+from ..core import deep
 from ..values import CUR, OBJECTS, ModelTraitError, raw
 from . import c05, c06, c07
 
@@ -291,7 +292,7 @@ class Prop:
         r = stream(seed, "ops")
         er = stream(seed, "env")
         bidx = c.randrange(4)
-        nops = c.choice([3, 6, 10, 15, 22, 30])
+        nops = deep(c, [3, 6, 10, 15, 22, 30], [45, 70])
         invalid_rate = c.choice([0.05, 0.15, 0.3])
         fault_rate = c.choice([0.0, 0.0, 0.15, 0.3])
         restart_rate = c.choice([0.0, 0.03, 0.08])
